@@ -550,7 +550,7 @@ Section ErrNonzero.
     - destruct (f addr) as [st' fa]. destruct (st' =? ST_OK)%Z eqn:E; [discriminate|].
       intros [= <-]. now apply Z.eqb_neq.
     - destruct (fa_as root =? AS_NOADDR)%Z; [intros [= <-]; discriminate|].
-      destruct (8 <? length fields)%nat; [discriminate|].
+      destruct (8 <? length fields)%nat; [intros [= <-]; discriminate|].
       destruct (split_fields fields addr) as [[idx top]|]; [|discriminate].
       destruct (negb (top =? 0)); [intros [= <-]; discriminate|].
       destruct idx as [|i0 upper]; [discriminate|].
